@@ -657,3 +657,97 @@ Qed.
 Corollary swc_mult_allocs mults outs :
   map Composition.o_alloc (swc (xmults mults) (map (xout mults) outs)) = map Composition.o_alloc (swc mults outs).
 Proof. rewrite swc_mult, map_map. reflexivity. Qed.
+
+(* popularity_comparison: every class supports, with its multiplicity, the outcomes its copies support *)
+Fixpoint presum (j : nat) (mults : list nat) : nat :=
+  match j, mults with
+  | S j', m :: t => (m + presum j' t)%nat
+  | _, _ => O
+  end.
+
+Lemma nth_repeat_lt {A} (a d : A) m i : (i < m)%nat -> nth i (repeat a m) d = a.
+Proof. revert i. induction m as [|m IH]; intros [|i] H; simpl; try lia; [reflexivity|apply IH; lia]. Qed.
+
+Lemma nth_xvsat : forall mults vsat j i, (j < length mults)%nat -> (i < nth j mults 0)%nat ->
+  nth (presum j mults + i) (xvsat mults vsat) 0 = nth j vsat 0.
+Proof.
+  induction mults as [|m t IH]; intros vsat j i Hj Hi; [simpl in Hj; lia|].
+  destruct vsat as [|s r].
+  - unfold xvsat. cbn [combine flat_map]. destruct (presum j (m :: t) + i)%nat; destruct j; reflexivity.
+  - unfold xvsat. cbn [combine flat_map fst snd]. fold (xvsat t r). destruct j as [|j].
+    + cbn [presum nth] in *. rewrite app_nth1 by (rewrite repeat_length; exact Hi). apply nth_repeat_lt. exact Hi.
+    + cbn [presum nth] in *. rewrite <- Nat.add_assoc.
+      rewrite <- (repeat_length s m) at 1. rewrite app_nth2_plus. apply IH; [simpl in Hj; lia|exact Hi].
+Qed.
+
+Lemma existsb_same_alloc_x mults o T :
+  existsb (same_alloc (xout mults o)) (map (xout mults) T) = existsb (same_alloc o) T.
+Proof. induction T as [|z zs IH]; [reflexivity|]. cbn [map existsb]. rewrite same_alloc_x, IH. reflexivity. Qed.
+
+Lemma tops_x mults res j i : (j < length mults)%nat -> (i < nth j mults 0)%nat ->
+  tops (map (xout mults) res) (presum j mults + i) = map (xout mults) (tops res j).
+Proof.
+  intros Hj Hi. unfold tops. rewrite argmax_all_map. f_equal.
+  apply argmax_all_ext. intros a b. unfold vs, xout. cbn [o_vsat].
+  rewrite !(nth_xvsat mults _ j i Hj Hi). reflexivity.
+Qed.
+
+Lemma support_block res' o' c m : forall j' B,
+  (forall i, (i < m)%nat -> existsb (same_alloc o') (tops res' (j' + i)) = c) ->
+  support_from res' o' j' (repeat 1%nat m ++ B) = ((if c then m else O) + support_from res' o' (j' + m) B)%nat.
+Proof.
+  induction m as [|m IH]; intros j' B H.
+  - cbn [repeat app]. rewrite Nat.add_0_r. destruct c; reflexivity.
+  - cbn [repeat app support_from].
+    assert (H0 := H O (Nat.lt_0_succ m)). rewrite Nat.add_0_r in H0. rewrite H0.
+    rewrite (IH (S j') B).
+    + replace (S j' + m)%nat with (j' + S m)%nat by lia. destruct c; lia.
+    + intros i Hi. replace (S j' + i)%nat with (j' + S i)%nat by lia. apply H. lia.
+Qed.
+
+Lemma skipn_cons_inv {A} (d : A) : forall j (l : list A) x t, skipn j l = x :: t ->
+  (j < length l)%nat /\ nth j l d = x /\ skipn (S j) l = t.
+Proof.
+  induction j as [|j IH]; intros l x t H.
+  - simpl in H. subst l. simpl. repeat split. lia.
+  - destruct l as [|y l]; [discriminate|]. simpl in H. destruct (IH l x t H) as [H1 [H2 H3]].
+    repeat split; [simpl; lia|exact H2|exact H3].
+Qed.
+
+Lemma presum_S : forall mults j, (j < length mults)%nat -> presum (S j) mults = (presum j mults + nth j mults 0)%nat.
+Proof.
+  induction mults as [|m t IH]; intros j Hj; [simpl in Hj; lia|].
+  destruct j as [|j]; [cbn [presum nth]; destruct t; simpl; lia|].
+  change (presum (S (S j)) (m :: t)) with (m + presum (S j) t)%nat.
+  rewrite (IH j) by (simpl in Hj; lia). cbn [presum nth]. lia.
+Qed.
+
+Lemma support_from_x mults res o : forall t j, skipn j mults = t ->
+  support_from (map (xout mults) res) (xout mults o) (presum j mults) (xmults t) = support_from res o j t.
+Proof.
+  induction t as [|m t IH]; intros j Hs; [reflexivity|].
+  destruct (skipn_cons_inv O j mults m t Hs) as [Hj [Hm Ht]].
+  unfold xmults. cbn [flat_map]. fold (xmults t).
+  rewrite (support_block _ _ (existsb (same_alloc o) (tops res j)) m).
+  - cbn [support_from]. f_equal. rewrite <- (IH (S j) Ht). rewrite (presum_S mults j Hj), Hm. reflexivity.
+  - intros i Hi. rewrite (tops_x mults res j i Hj) by (rewrite Hm; exact Hi). apply existsb_same_alloc_x.
+Qed.
+
+Lemma support_x mults res o :
+  support (map (xout mults) res) (xmults mults) (xout mults o) = support res mults o.
+Proof. unfold support. apply (support_from_x mults res o mults O). reflexivity. Qed.
+
+Theorem popularity_mult mults outs :
+  popularity (xmults mults) (map (xout mults) outs) = map (xout mults) (popularity mults outs).
+Proof.
+  unfold popularity. rewrite results_x. set (res := results outs).
+  rewrite map_map.
+  rewrite (map_ext (fun o => support (map (xout mults) res) (xmults mults) (xout mults o)) (support res mults))
+    by (intros o; apply support_x).
+  rewrite mp_filter_map. f_equal. apply filter_ext. intros o. rewrite support_x. reflexivity.
+Qed.
+
+Corollary popularity_mult_allocs mults outs :
+  map Composition.o_alloc (popularity (xmults mults) (map (xout mults) outs))
+  = map Composition.o_alloc (popularity mults outs).
+Proof. rewrite popularity_mult, map_map. reflexivity. Qed.
